@@ -9,7 +9,7 @@ import (
 // C03 — uniqueness never violated, never over-enforced (DESIGN 4/C03).
 
 func init() {
-	drivers["C03"] = &driver{cases: tierN(400, 8000), run: runC03}
+	drivers["C03"] = &driver{cases: tierN(400, 40000), run: runC03}
 }
 
 // pairwiseUnique checks over All() that no two stored objects share a unique value.
